@@ -74,6 +74,9 @@ pub fn c02_scenario(seed: u64, idx: u64) -> Scenario {
         }
         sc.conns.push(c);
     }
+    if rng.chance(1, 8) {
+        sc.disk_fault = Some(DiskFault { op: "touch".into(), nth: rng.range(1, 10) as u32, kind: "owner_touch".into(), sticky: false });
+    }
     sc
 }
 
@@ -244,6 +247,11 @@ pub fn c03_scenario(seed: u64, idx: u64) -> Scenario {
             }
             sc.conns.push(c);
         }
+    }
+    // a sixth of the runs: the owner touches a file (new modification time, same bytes) right before
+    // one of the first stat calls the server makes - a deploy landing inside a request
+    if rng.chance(1, 6) {
+        sc.disk_fault = Some(DiskFault { op: "touch".into(), nth: rng.range(1, 10) as u32, kind: "owner_touch".into(), sticky: false });
     }
     sc
 }
